@@ -31,7 +31,7 @@ REWRITES = u_stack.REWRITES + [
     Rewrite('R37-any', r'\b(tag\.attrs|attrs)\s*\.iter\(\)\s*\.any\(', r'vec_any(&\1, ', min_count=2),
     # R39: local tag sets of insert_element
     Rewrite('R39-localset', r'declare_tag_set!\(form_associatable =[^;]*;', '', min_count=1),
-    Rewrite('R39-localset', r'declare_tag_set!\(listed = \[form_associatable\] - "img"\);', '', min_count=1),
+    Rewrite('R39-localset', r'declare_tag_set!\(listed = [^;]*\);', '', min_count=1),
     # R12: a loop condition that contains a closure with a block body is parenthesised (Verus's parser needs it)
     Rewrite('R12-parencond', r'while !self\.current_node_in\(\|n\| \{', 'while (!self.current_node_in(|n| {', only=('TreeBuilder::unexpected_start_tag_in_foreign_content',), min_count=1),
     Rewrite('R12-parencond', r'\)\s*\{(\s*)self\.pop\(\);', r')) {\1self.pop();', only=('TreeBuilder::unexpected_start_tag_in_foreign_content',), min_count=1),
@@ -64,4 +64,10 @@ PARTS = BASE + [
     Item(R, 'fn', 'step_foreign', impl='TreeBuilder', wrap='impl TreeBuilder', attrs='#[verifier::loop_isolation(false)]'),
     Raw('} // verus!\nfn main() {}'),
 ]
+LOCAL_SETS = [
+    u_stack.local_set_check(H, r'fn insert_element\(', 'form_associatable', 'tsl_form_associatable', 'is_form_associatable(p)'),
+    u_stack.local_set_check(H, r'fn insert_element\(', 'listed', 'tsl_listed', 'is_form_associatable(p) && p.local != local_name!("img")', uses=('tsl_form_associatable',)),
+]
+PARTS = u_stack.with_local_sets(PARTS, LOCAL_SETS)
+
 DROPS = u_stack.DROPS + ['the insertion-mode rules `step` (an uninterpreted function of state, mode and token)']
